@@ -39,6 +39,8 @@ type c09RingArgs struct {
 	gen  uint64
 	idx  []uint64
 	nb   int
+	s0   ring.RNSScalar
+	s1   ring.RNSScalar
 }
 
 func c09RingOps() []c09RingOp {
@@ -94,6 +96,33 @@ func c09RingOps() []c09RingOp {
 		px("MulByVectorMontgomeryThenAddLazy", true, func(r *ring.Ring, a ring.Poly, x *c09RingArgs, o ring.Poly) {
 			r.MulByVectorMontgomeryThenAddLazy(a, x.vec, o)
 		}),
+		px("AddDoubleRNSScalar", false, func(r *ring.Ring, a ring.Poly, x *c09RingArgs, o ring.Poly) { r.AddDoubleRNSScalar(a, x.s0, x.s1, o) }),
+		px("SubDoubleRNSScalar", false, func(r *ring.Ring, a ring.Poly, x *c09RingArgs, o ring.Poly) { r.SubDoubleRNSScalar(a, x.s0, x.s1, o) }),
+		px("MulDoubleRNSScalar", false, func(r *ring.Ring, a ring.Poly, x *c09RingArgs, o ring.Poly) { r.MulDoubleRNSScalar(a, x.s0, x.s1, o) }),
+		px("MulDoubleRNSScalarThenAdd", true, func(r *ring.Ring, a ring.Poly, x *c09RingArgs, o ring.Poly) {
+			r.MulDoubleRNSScalarThenAdd(a, x.s0, x.s1, o)
+		}),
+		px("MulRNSScalarMontgomery", false, func(r *ring.Ring, a ring.Poly, x *c09RingArgs, o ring.Poly) { r.MulRNSScalarMontgomery(a, x.s0, o) }),
+		px("RNSScalar arithmetic", false, func(r *ring.Ring, a ring.Poly, x *c09RingArgs, o ring.Poly) {
+			// scalar results with the receiver among the operands (x.k selects the pattern), folded into the output
+			// polynomial so that the usual comparison sees them
+			t, u := append(ring.RNSScalar{}, x.s0...), append(ring.RNSScalar{}, x.s1...)
+			switch ((x.k % 4) + 4) % 4 {
+			case 0:
+				r.MulRNSScalar(t, u, t)
+			case 1:
+				r.MulRNSScalar(t, u, u)
+				t = u
+			case 2:
+				r.SubRNSScalar(t, u, t)
+			default:
+				r.SubRNSScalar(t, u, u)
+				t = u
+			}
+			r.MFormRNSScalar(t, t)
+			r.NegRNSScalar(t, t)
+			r.MulRNSScalarMontgomery(a, t, o)
+		}),
 		px("EvalPolyScalar", false, func(r *ring.Ring, a ring.Poly, x *c09RingArgs, o ring.Poly) { r.EvalPolyScalar(x.list, x.u, o) }),
 		px("DivFloorByLastModulus", false, func(r *ring.Ring, a ring.Poly, x *c09RingArgs, o ring.Poly) { r.DivFloorByLastModulus(a, o) }),
 		px("DivRoundByLastModulus", false, func(r *ring.Ring, a ring.Poly, x *c09RingArgs, o ring.Poly) { r.DivRoundByLastModulus(a, o) }),
@@ -115,6 +144,7 @@ func c09RingOps() []c09RingOp {
 	auto := []c09RingOp{
 		px("AutomorphismNTT", false, func(r *ring.Ring, a ring.Poly, x *c09RingArgs, o ring.Poly) { r.AutomorphismNTT(a, x.gen, o) }),
 		px("Automorphism", false, func(r *ring.Ring, a ring.Poly, x *c09RingArgs, o ring.Poly) { r.Automorphism(a, x.gen, o) }),
+		px("AutomorphismNTTWithIndex", false, func(r *ring.Ring, a ring.Poly, x *c09RingArgs, o ring.Poly) { r.AutomorphismNTTWithIndex(a, x.idx, o) }),
 		px("AutomorphismNTTWithIndexThenAddLazy", true, func(r *ring.Ring, a ring.Poly, x *c09RingArgs, o ring.Poly) {
 			r.AutomorphismNTTWithIndexThenAddLazy(a, x.idx, o)
 		}),
@@ -180,6 +210,7 @@ func c09RingRun(ctx *core.RunCtx) {
 			x.gen = r.NthRoot() - 1
 		}
 		x.idx, _ = ring.AutomorphismNTTIndex(r.N(), r.NthRoot(), x.gen)
+		x.s0, x.s1 = r.NewRNSScalarFromUInt64(g.Next()), r.NewRNSScalarFromBigint(x.big)
 		// aliasing pattern
 		pat := ch.Weighted("alias", []int{3, 4, 3, 2, 2, 3})
 		var out ring.Poly
@@ -242,6 +273,7 @@ func c09RingRun(ctx *core.RunCtx) {
 		tx.vec = append([]uint64{}, x.vec...)
 		tx.buff = r.NewPoly()
 		tx.idx = append([]uint64{}, x.idx...)
+		tx.s0, tx.s1 = append(ring.RNSScalar{}, x.s0...), append(ring.RNSScalar{}, x.s1...)
 		tx.list = nil
 		for _, p := range x.list {
 			tx.list = append(tx.list, *p.CopyNew())
@@ -255,6 +287,7 @@ func c09RingRun(ctx *core.RunCtx) {
 		}
 		same := func(p, q ring.Poly) bool { return &p.Coeffs[0][0] == &q.Coeffs[0][0] }
 		ha, hbig, hvec, hidx := polyHash(a), x.big.Text(16), hashOperand(x.vec), hashOperand(x.idx)
+		hs := hashOperand([]uint64(x.s0)) ^ 3*hashOperand([]uint64(x.s1))
 		var hb uint64
 		if op.arity == 2 {
 			hb = polyHash(b)
@@ -295,7 +328,7 @@ func c09RingRun(ctx *core.RunCtx) {
 				return
 			}
 		}
-		if x.big.Text(16) != hbig || hashOperand(x.vec) != hvec || hashOperand(x.idx) != hidx {
+		if x.big.Text(16) != hbig || hashOperand(x.vec) != hvec || hashOperand(x.idx) != hidx || hashOperand([]uint64(x.s0))^3*hashOperand([]uint64(x.s1)) != hs {
 			ctx.Fail("inputs", cls+"|argument-modified", "ring.%s modified a scalar, vector or index argument", op.name)
 			return
 		}
